@@ -22,7 +22,8 @@ RULE = ("programs: chains y <- op_i(y) with op_i drawn from {+c, *c, tanh (<=12 
         "after gc.collect()).  non-trivial: depth >= 1000 (above the interpreter's default recursion limit) or loop "
         "length >= 1000; distinct by hash of the case"
         " Round 5 (thorough tier): CPU time of backward per recorded operation at n = 2e4 vs 3.2-4e5 (minimum ratio of up to three runs <= 3.5)."
-        " Round 6: one op with 3 000 / 48 000 operands in the CPU-time check; untracked loops whose every step is a view (transpose/reshape/[...] chains, rest = rest[1:]) or a conv / pool call.")
+        " Round 6: one op with 3 000 / 48 000 operands in the CPU-time check; untracked loops whose every step is a view (transpose/reshape/[...] chains, rest = rest[1:]) or a conv / pool call."
+        " Round 7: no collector pass during backward with automatic collection off (backward_is_local); tracked loops cut by detach().")
 ASSUMPTIONS = ["'any size that fits in memory' is explored up to 5e4 sequential ops; beyond that only the linear "
                "call-count argument extrapolates",
                "cost is asserted on the deterministic number of Python source lines executed (sys.monitoring), never on "
